@@ -173,6 +173,14 @@ def matcher_commands(repo):
         "match varDecl(hasStaticStorageDuration(), unless(isStaticLocal()), unless(hasDeclContext(recordDecl())), %s)" % here,
         # 4 uses of static-storage objects declared outside the repository
         "match declRefExpr(%s, to(varDecl(hasStaticStorageDuration(), unless(%s)).bind(\"target\")))" % (here, here),
+        # 5 (other output mode) calls of member functions of common::Singleton<T> -- the only code that can
+        #   name the singleton's private static members -- with the enclosing function and, when the call
+        #   sits in a branch of an `if` (not in its condition), that branch and the condition
+        "set output diag",
+        "set bind-root false",
+        "match callExpr(%s, callee(cxxMethodDecl(ofClass(classTemplateSpecializationDecl(hasName(\"::celma::common::Singleton\"))))), "
+        "optionally(hasAncestor(stmt(hasParent(ifStmt(hasCondition(expr().bind(\"cond\")))), unless(equalsBoundNode(\"cond\"))).bind(\"branch\"))), "
+        "hasAncestor(functionDecl().bind(\"fn\")))" % here,
     ]
 
 
@@ -184,8 +192,74 @@ VARDECL_RE = re.compile(r"^VarDecl 0x[0-9a-f]+ (?:parent 0x[0-9a-f]+ )?(?:prev 0
                         r"(?: (?:implicit|used|referenced|invalid))* (?P<name>[A-Za-z_]\w*) (?P<types>'.*') ?(?P<flags>[a-z_ ]*)$")
 
 
+FN_NAME_RE = re.compile(r"((?:[A-Za-z_]\w*\s*::\s*)*~?[A-Za-z_]\w*)\s*\(")
+
+
+def split_query_output(out):
+    """the output of the four dump-mode matchers / of the fifth (diag-mode) matcher"""
+    n = 0
+    lines = out.split("\n")
+    for i, line in enumerate(lines):
+        if COUNT_RE.match(line):
+            n += 1
+            if n == 4:
+                return "\n".join(lines[:i + 1]) + "\n", lines[i + 1:]
+    raise RuntimeError("clang-query: expected 4 match summaries before the call-site matcher, got %d" % n)
+
+
+def parse_call_sites(lines, repo):
+    """-> list of dicts (file, function, guarded, guard) for the calls of Singleton<T> members"""
+    src = os.path.join(repo, "src") + "/"
+    blocks, cur, count = [], None, None
+    for line in lines:
+        if MATCH_HDR.match(line):
+            cur = []
+            blocks.append(cur)
+            continue
+        m = COUNT_RE.match(line)
+        if m:
+            count = int(m.group(1))
+            cur = None
+            continue
+        if cur is not None:
+            cur.append(line)
+    if count is None:
+        if any("0 matches." in l for l in lines):
+            count = 0
+        else:
+            raise RuntimeError("clang-query: no summary of the call-site matcher")
+    if count != len(blocks):
+        raise RuntimeError("clang-query: %d call sites announced, %d parsed" % (count, len(blocks)))
+    res = []
+    for b in blocks:
+        bound = {}
+        for i, l in enumerate(b):
+            m = DIAG_RE.match(l)
+            if m and m.group(4) not in bound:
+                bound[m.group(4)] = (m.group(1), int(m.group(2)), b[i + 1] if i + 1 < len(b) else "")
+        if "fn" not in bound:
+            raise RuntimeError("clang-query: call site without enclosing function: " + " | ".join(b[:6]))
+        f, ln, text = bound["fn"]
+        if not f.startswith(src):
+            raise RuntimeError("clang-query: call site outside the repository: " + f)
+        m = FN_NAME_RE.search(text)
+        # a lambda / an unreadable header line keeps its position as name: never equal to a modelled caller
+        name = re.sub(r"\s+", "", m.group(1)) if m else "%s:%d" % (f[len(src):], ln)
+        guard = " ".join(bound["cond"][2].split()) if "branch" in bound and "cond" in bound else ""
+        res.append({"file": f[len(src):], "function": name, "guarded": "branch" in bound, "guard": guard})
+    return res
+
+
 def parse_query_output(out, repo):
     """-> list of dicts (kind, file, line, name, type, flags) ; raises when the output has not the expected shape"""
+    out, call_lines = split_query_output(out)
+    res, counts = parse_query_output_decls(out, repo)
+    for c in parse_call_sites(call_lines, repo):
+        res.append(dict(c, kind="singleton-call"))
+    return res, counts
+
+
+def parse_query_output_decls(out, repo):
     src = os.path.join(repo, "src") + "/"
     res = []
     blocks = []          # (kind index, [lines])
@@ -284,6 +358,17 @@ def token_scan(path, rel):
     return res
 
 
+def token_scan_calls(path, rel):
+    """units clang could not parse: every `X::instance(` / `X::reset(` counts as an unguarded call of a
+    singleton member from an unnamed function (never equal to a modelled caller)"""
+    txt = strip_comments(open(path, encoding="utf-8", errors="replace").read())
+    res = []
+    for m in re.finditer(r"\b[A-Za-z_]\w*\s*(?:<[^;{}()]*>)?\s*::\s*(?:instance|reset)\s*\(", txt):
+        ln = txt.count("\n", 0, m.start()) + 1
+        res.append({"kind": "singleton-call", "file": rel, "function": "%s:%d" % (rel, ln), "guarded": False, "guard": ""})
+    return res
+
+
 # --------------------------------------------------------------------------- scope (informational)
 
 def enclosing_scope(src_dir, entry, cache):
@@ -320,7 +405,7 @@ def lean_str(s):
     return '"' + s.replace("\\", "\\\\").replace('"', '\\"') + '"'
 
 
-def emit_lean(path, method, files, entries, externals, n_const, n_tus, fallback_files):
+def emit_lean(path, method, files, entries, externals, n_const, n_tus, fallback_files, callers=()):
     L = []
     L.append("/-")
     L.append("  GENERATED by translate/shared_state.py from the working tree of the checked repository --")
@@ -375,6 +460,22 @@ def emit_lean(path, method, files, entries, externals, n_const, n_tus, fallback_
             lean_str(x["name"]), lean_str(x["type"]), "true" if x["mutable"] else "false",
             ", ".join("(%s, %d)" % (lean_str(f), l) for f, l in x["sites"])))
     L.append(",\n".join(rows))
+    L.append("]")
+    L.append("")
+    L.append("/-- a function of the reach that calls a member function of `common::Singleton<T>` (the only code")
+    L.append("that can name the singleton's private static members).  `guarded`: every such call in the function sits")
+    L.append("in a branch of an `if` (not in its condition); `guards`: the conditions as written (informational). -/")
+    L.append("structure SingletonCaller where")
+    L.append("  file     : String")
+    L.append("  function : String")
+    L.append("  guarded  : Bool")
+    L.append("  guards   : List String")
+    L.append("deriving Repr, DecidableEq")
+    L.append("")
+    L.append("def singletonCallers : List SingletonCaller := [")
+    L.append(",\n".join("  { file := %s, function := %s, guarded := %s, guards := [%s] }" % (
+        lean_str(c["file"]), lean_str(c["function"]), "true" if c["guarded"] else "false",
+        ", ".join(lean_str(g) for g in c["guards"])) for c in callers))
     L.append("]")
     L.append("")
     L.append("def reach : List String := [")
@@ -490,6 +591,7 @@ def handler_inventory(repo, lean_dir):
                 scan |= set(f for f in files if f.endswith(".hpp"))
             for f in sorted(scan):
                 raw += token_scan(os.path.join(src, f), f)
+                raw += token_scan_calls(os.path.join(src, f), f)
             fallback = sorted(set(fallback) | set(dropped))
     finally:
         shutil.rmtree(work, ignore_errors=True)
@@ -505,7 +607,17 @@ def handler_inventory(repo, lean_dir):
     by_key = {}
     externals = {}
     n_const_keys = set()
+    callers = {}
     for e in raw:
+        if e["kind"] == "singleton-call":
+            c = callers.setdefault((e["file"], e["function"]), {"file": e["file"], "function": e["function"],
+                                                                "guarded": True, "guards": set(), "calls": 0})
+            c["calls"] += 1
+            if e["guarded"]:
+                c["guards"].add(e["guard"])
+            else:
+                c["guarded"] = False        # one call outside a branch makes the function an unguarded caller
+            continue
         if e["kind"] == "external-ref":
             x = externals.setdefault(e["name"], {"name": e["name"], "type": e["desugared"],
                                                  "mutable": not is_const_type(e["desugared"]), "sites": set()})
@@ -547,13 +659,19 @@ def handler_inventory(repo, lean_dir):
             n_const_ext += 1          # e.g. std::string::npos: immutable, only counted
     files_out = sorted(inreach)
     out = os.path.join(lean_dir, OUT_REL)
-    changed = emit_lean(out, method, files_out, entries, exts, len(n_const_keys - set(by_key)), len(tus) + 1, sorted(fallback))
+    caller_list = []
+    for k in sorted(callers):
+        c = callers[k]
+        # the same (file, function) is seen once per unit that includes it and once per call
+        caller_list.append({"file": c["file"], "function": c["function"], "guarded": c["guarded"], "guards": sorted(c["guards"])})
+    changed = emit_lean(out, method, files_out, entries, exts, len(n_const_keys - set(by_key)), len(tus) + 1, sorted(fallback), caller_list)
     return {
         "method": method,
         "translation_units": len(tus) + 1,
         "reached_files": len(files_out),
         "unresolved_celma_includes": unresolved,
         "mutable_statics": ["%s:%d %s : %s [%s]" % (e["file"], e["line"], e["name"], e["type"], e["kind"]) for e in entries],
+        "singleton_callers": ["%s %s%s" % (c["file"], c["function"], " [guarded: %s]" % "; ".join(c["guards"]) if c["guarded"] else "") for c in caller_list],
         "external_statics": ["%s : %s%s (%d sites)" % (x["name"], x["type"], "" if x["mutable"] else " [const]", len(x["sites"])) for x in exts],
         "const_statics": len(n_const_keys - set(by_key)),
         "const_external_statics": n_const_ext,
